@@ -347,6 +347,32 @@ impl<U> NumDecompressor<U> where U: UnsignedLike {
     res
   }
 
+  // Verification hook (see verif.rs): one dirty batch from a given state;
+  // returns the result, the incomplete prefix (lower bound, remaining reps)
+  // it leaves behind and the reader's bit index.
+  #[cfg(mwlon_quantile_compression_verif)]
+  pub(crate) fn verif_dirty(
+    &mut self,
+    reader: &mut BitReader,
+    n_processed: usize,
+    incomplete: Option<(PrefixDecompressionInfo<U>, usize)>,
+    limit: usize,
+    error_on_insufficient_data: bool,
+  ) -> (QCompressResult<Unsigneds<U>>, Option<(U, usize)>, usize) {
+    self.state.n_processed = n_processed;
+    self.state.incomplete_prefix = incomplete.map(|(prefix, remaining_reps)| IncompletePrefix {
+      prefix,
+      remaining_reps,
+    });
+    let res = if self.use_gcd {
+      self.decompress_unsigneds_limited_dirty::<GeneralGcdOp>(reader, limit, error_on_insufficient_data)
+    } else {
+      self.decompress_unsigneds_limited_dirty::<TrivialGcdOp>(reader, limit, error_on_insufficient_data)
+    };
+    let inc = self.state.incomplete_prefix.map(|ip| (ip.prefix.lower_unsigned, ip.remaining_reps));
+    (res, inc, reader.bit_idx())
+  }
+
   // After much debugging a performance degradation from error handling changes,
   // it turned out this function's logic ran slower when inlining.
   // I don't understand why, but telling it not
